@@ -199,8 +199,17 @@ def run(res, tier, build_ok):
         calls = [("testunitready", {}), ("inquiry", {}), ("read10", {"lba": 1, "tl": 1}), ("readcapacity10", {}),
                  ("write10", {"lba": 0, "tl": 1, "data": bytearray(512)}), ("reportluns", {}), ("modesense6", {"page_code": 0x0A}),
                  ("atapassthrough16", dict(protocal=4, t_length=0, byte_block=0, t_dir=0, t_type=0, off_line=0, fetures=0, count=0, lba=0, command=0xE5))]
-        for status in (list(range(256)) if thorough else [0, 2, 4, 8, 0x18, 0x28, 0x30, 0x40, 0x22, 0xFF, 1, 3]):
-            for meth, kw in calls:
+        grid = [(status, meth, kw) for status in (list(range(256)) if thorough else [0, 2, 4, 8, 0x18, 0x28, 0x30, 0x40, 0x22, 0xFF, 1, 3])
+                for meth, kw in calls]
+        # then a history on the same facade object: any mix of methods and outcomes, in particular CHECK CONDITION on an
+        # ordinary command after an ATA PASS-THROUGH (the one method that asks for raw sense) that failed or succeeded
+        calls12 = calls + [("atapassthrough12", dict(protocal=4, t_length=0, byte_block=0, t_dir=0, t_type=0, off_line=0, fetures=0, count=0, lba=0, command=0xE5))]
+        for _ in range(400 if thorough else 120):
+            meth, kw = rng.choice(calls12 + calls12[-2:] * 2)
+            grid.append((rng.choice([0, 2, 2, 2, 4, 8, 0x18, 0x28]), meth, kw))
+        res.count("facade history steps " + kind, len(grid))
+        for status, meth, kw in grid:
+            if True:
                 sense = sense_buf(rng)
                 state["status"], state["sense"] = status, sense
                 del iscsi.LOG[:]
